@@ -59,6 +59,11 @@ func genC02(rng *rand.Rand, n int, emit func(Case), dist map[string]int) {
 			s := &rServer{out: srvOut}
 			_ = s
 			e := rBuild(nil, nil)
+			if rng.Intn(2) == 0 {
+				// a pass-through Pre middleware: routing then happens inside the chain, after Pre
+				e.e.Pre(func(next echo.HandlerFunc) echo.HandlerFunc { return func(c echo.Context) error { return next(c) } })
+				dist["host_tables_with_pre_middleware"]++
+			}
 			var hs []Sx
 			tables := map[string][]rRoute{}
 			base := 0
